@@ -44,6 +44,7 @@ class Check:
         self.extra = {}
         self.violations = 0
         self.known_hits = {}       # finding id -> count
+        self.violation_classes = {}
         self.unspecified = 0
         self._known = [k for k in load_known().get("findings", [])
                        if k["property"] == pid]
@@ -95,8 +96,11 @@ class Check:
                 sys.stdout.flush()
             return "known"
         self.violations += 1
-        if self.violations <= self.max_violation_files:
-            d = os.path.join(VERIF, "replays", self.pid)
+        ck = json.dumps(detail.get("class", {}), sort_keys=True)
+        first_of_class = ck not in self.violation_classes
+        self.violation_classes[ck] = self.violation_classes.get(ck, 0) + 1
+        if self.violations <= self.max_violation_files or (first_of_class and len(self.violation_classes) < 40):
+            d = os.path.join(os.environ.get("ZCV_REPLAY_DIR", os.path.join(VERIF, "replays")), self.pid)
             os.makedirs(d, exist_ok=True)
             path = os.path.join(d, "%s-%d-%03d.json" % (self.tier, self.seed, self.violations))
             with open(path, "w") as f:
@@ -124,6 +128,8 @@ class Check:
             "known_finding_hits": self.known_hits,
             "unspecified_scenarios": self.unspecified,
         }
+        if self.violation_classes:
+            cov["violation_classes"] = self.violation_classes
         cov.update(self.extra)
         ev = {
             "property_id": self.pid,
@@ -135,8 +141,9 @@ class Check:
             "wall_s": round(wall, 2),
             "violations": int(self.violations),
         }
-        os.makedirs(os.path.join(VERIF, "evidence"), exist_ok=True)
-        path = os.path.join(VERIF, "evidence", self.pid + ".json")
+        evdir = os.environ.get("ZCV_EVIDENCE_DIR", os.path.join(VERIF, "evidence"))
+        os.makedirs(evdir, exist_ok=True)
+        path = os.path.join(evdir, self.pid + ".json")
         tmp = path + ".tmp"
         with open(tmp, "w") as f:
             json.dump(ev, f, indent=1, sort_keys=True, default=repr)
